@@ -148,6 +148,9 @@ def model_skeletons() -> dict[str, dict]:
             "ReqOnly": {"allOf": [obj({"ro-a": INT, "roB": STR}), {"required": ["ro-a"]}]},
             "ReqOfParent": {"allOf": [ref("Base"), {"required": ["baseOpt"]}]},
             "OwnProps": {"allOf": [ref("Other")], "properties": {"own-p": INT, "ownQ": STR}, "required": ["ownQ"]},
+            # the member that requires the property gives it the broader type, a later member narrows it without repeating `required`
+            "ReqBase": obj({"amount": NUM, "unit": STR, "when": STR}, ["amount", "when"]),
+            "NarrowReq": {"allOf": [ref("ReqBase"), obj({"amount": INT, "when": DATE, "extra-n": STR})]},
             "EnumNarrow": {"allOf": [obj({"color": STR}), obj({"color": {"type": "string", "enum": ["red", "green"]}})]},
         }
     )
